@@ -549,6 +549,14 @@ func (e *Exec) callByContract(fr *Frame, st *BState, x *ssa.Call, f *ssa.Functio
 		nf := e.fresh("call.frontier", SInt)
 		e.assume(le(old, nf))
 		st.ghost["$frontier"] = intSV(nf)
+		// a pointer argument into the interior of a caller object (e.g. &c.sum): the callee may write through it
+		for _, a := range args {
+			if p, ok := a.(*PtrV); ok && p.LV != nil {
+				et := p.Ty.Underlying().(*types.Pointer).Elem()
+				nv := e.freshSV(et, "call."+f.Name()+".through", st.reach, false)
+				e.writeLV(st, p, et, nv)
+			}
+		}
 	}
 	if o, m := producesInto(f); o || m {
 		e.havocOutTraces(st, "call."+f.Name(), o, m)
